@@ -104,6 +104,13 @@ class Flow(object):
                 self.scope.locals.add(name.name)
             insert_loc(self._names, name)
 
+    def mark_local(self, ident):
+        # type: (str) -> None
+        # a statement that makes the identifier a variable of this scope
+        # without binding an object the analysis follows (x += 1, del x, x: int)
+        if ident not in self.scope.globals and ident not in self.scope.nonlocals:
+            self.scope.locals.add(ident)
+
     @flow_cached
     def names(self):
         # type: () -> t.Mapping[str, Name | MultiName]
